@@ -10,8 +10,13 @@ import StorageModel.C04.Map
                   boss  : string   AddFkIndexCascadeDelete -> A.minions  (self reference, cascades)
                   dep   : *string  AddFkConstraint(nullable?, CascadeNone | CascadeDelete) -> B
     B ("owners")  no fields
+    C             plain child store of A (its data lives in `<A entity bucket>/ext1`): tag : *string,
+                  no constraints of its own.  Every operation through C runs A's constraints through the
+                  parent `IndexingContext`; `DeleteById` on an entity with child data runs A's
+                  `ProcessBeforeDelete` constraints twice (`passA`).
 
-  State = the two entity tables + the two back-reference maps (key present ⇔ the set bucket
+  State = the two entity tables (child data is part of the A entry: `EntA.ext`, it goes with the entity
+  bucket) + the two back-reference maps (key present ⇔ the set bucket
   exists under the target's entity bucket; `GetOrCreatePath` creates it on first use and it stays,
   possibly empty).  A failed operation leaves the state unchanged (bbolt rollback — assumed).
 -/
@@ -33,6 +38,9 @@ structure EntA where
   owner : FV
   boss : FV
   dep : FV
+  /-- child-store data: `none` = no bucket `ext1` under the entity bucket, `some t` = the bucket exists
+      and holds `tag = t` -/
+  ext : Option FV := none
 deriving DecidableEq, Repr
 
 structure St where
@@ -142,17 +150,54 @@ def createB (s : St) (id : Bytes) : Res :=
   else if s.bs.contains id then .error .other
   else .ok { s with bs := s.bs.insert id () }
 
-/-- `BaseStore.Update` on A with a field checker (`m*` = field is in the checker) -/
+/-- `IndexingContext.ProcessBeforeUpdate`: the fk values of the stored entity -/
+def oldsOf (cur : EntA) : Olds := { owner := evalVal cur.owner, boss := evalVal cur.boss, dep := evalVal cur.dep }
+
+/-- `BaseStore.Update` on A with a field checker (`m*` = field is in the checker).  When the entity has
+    child data the registered `ChildStoreUpdateHandler` hands the update to the child store (new parent
+    values, stored tag): `C.Update` runs `ProcessBeforeUpdate` / `ProcessAfterUpdate` of A's constraints
+    through the parent indexing context with `IsCreate = false` and persists the same fields under the
+    same checker — the same effect; the child data stays as it is. -/
 def updateA (σ : Schema) (s : St) (id : Bytes) (e : EntA) (mOwner mBoss mDep : Bool) : Res :=
   if id = [] then .error .other
   else match s.as.lookup id with
     | none => .error .notFound
     | some cur =>
-      let old : Olds := { owner := evalVal cur.owner, boss := evalVal cur.boss, dep := evalVal cur.dep }
       let e' : EntA := { owner := if mOwner then e.owner else cur.owner,
                          boss := if mBoss then e.boss else cur.boss,
-                         dep := if mDep then e.dep else cur.dep }
-      processAfterUpdateA σ false old id { s with as := s.as.insert id e' }
+                         dep := if mDep then e.dep else cur.dep,
+                         ext := cur.ext }
+      processAfterUpdateA σ false (oldsOf cur) id { s with as := s.as.insert id e' }
+
+/-- `BaseStore.Create` on the child store C: only C's own data is looked at for "already exists"; the
+    parent entity may exist already — then (since /repo 8269ce9) `Parent.ProcessBeforeUpdate` captures
+    its stored fk values, every parent field is overwritten (no field checker on create) and
+    `ProcessAfterUpdate` runs with `IsCreate = true` and those old values: the "unchanged" shortcut is off,
+    the old back-reference is removed and the new one written even when both name the same target. -/
+def createC (σ : Schema) (s : St) (id : Bytes) (e : EntA) (tag : FV) : Res :=
+  if id = [] then .error .other
+  else
+    let e' : EntA := { owner := e.owner, boss := e.boss, dep := e.dep, ext := some tag }
+    match s.as.lookup id with
+    | none => processAfterUpdateA σ true {} id { s with as := s.as.insert id e' }
+    | some cur =>
+      if cur.ext.isSome then .error .other                                   -- child data exists already
+      else processAfterUpdateA σ true (oldsOf cur) id { s with as := s.as.insert id e' }
+
+/-- `BaseStore.Update` on the child store C (`FindById` through C: not found without child data) -/
+def updateC (σ : Schema) (s : St) (id : Bytes) (e : EntA) (tag : FV) (mOwner mBoss mDep mTag : Bool) : Res :=
+  if id = [] then .error .other
+  else match s.as.lookup id with
+    | none => .error .notFound
+    | some cur =>
+      match cur.ext with
+      | none => .error .notFound
+      | some curTag =>
+        let e' : EntA := { owner := if mOwner then e.owner else cur.owner,
+                           boss := if mBoss then e.boss else cur.boss,
+                           dep := if mDep then e.dep else cur.dep,
+                           ext := some (if mTag then tag else curTag) }
+        processAfterUpdateA σ false (oldsOf cur) id { s with as := s.as.insert id e' }
 
 /-! ### referrer lookup: `IterateValidIds(tx, &fkReferrerFilter{symbol, id})` -/
 
@@ -193,15 +238,36 @@ def mark (prog : List Bytes) (id : Bytes) : List Bytes := if id ∈ prog then pr
 def beforeDeleteA (del : List Bytes → St → Bytes → Res) (prog : List Bytes) (id : Bytes) (s : St) (c : CA) : Res :=
   match c with
   | .ownerIdx =>
+    -- since /repo 001d2d2: the removal is skipped when the referenced entity is already gone
+    -- (`IsEntityPresent`): its back-reference set went with it
     let v := fieldOf s id (·.owner)
-    if v ≠ [] then thingsDel s v id else .ok s
+    if v ≠ [] then (if s.bs.contains v then thingsDel s v id else .ok s) else .ok s
   | .bossIdx =>
     let v := fieldOf s id (·.boss)
-    if v ≠ [] then minionsDel s v id else .ok s
+    if v ≠ [] then (if s.as.contains v then minionsDel s v id else .ok s) else .ok s
   | .bossCascade => cascadeOver (del (mark prog id)) (·.boss) id (mark prog id) (referrers s (·.boss) id) s
   | .depFk => .ok s
 
-/-- `BaseStore.DeleteById` on A.  The Go function recurses through
+/-- `processDeleteConstraints` of one store level: `ProcessBeforeDelete` of every constraint of A in order -/
+def passA (σ : Schema) (del : List Bytes → St → Bytes → Res) (prog : List Bytes) (id : Bytes) (s : St) : Res :=
+  (orderA σ).foldlM (beforeDeleteA del prog id) s
+
+/-- the child store finds the entity (`C.FindById`): its bucket `ext1` exists -/
+def hasExt (s : St) (id : Bytes) : Bool :=
+  match s.as.lookup id with
+  | some e => e.ext.isSome
+  | none => false
+
+/-- `BaseStore.DeleteById` on A (`C.DeleteById` goes straight here).  For every registered child store
+    whose `FindById` finds the entity, `processDeleteConstraints` of the child store runs first — its
+    indexing context starts with the parent's constraints — and then A's own `processDeleteConstraints`
+    runs the same constraints a SECOND time (`passA` twice for an entity with child data; the first round's
+    cascade may already have deleted the boss — a reference cycle through the entity — which is why, since
+    001d2d2, `fkIndex.ProcessBeforeDelete` skips a target that is gone).  Between the two
+    rounds the entity still exists (`pass_keeps_id`: a round never removes an entity that is in progress),
+    so the second `FindById` always finds it.
+
+    The Go function recurses through
     `fkDeleteCascadeConstraint.ProcessBeforeDelete` *before* the entity bucket is removed; since
     commit bda5470 the entities whose cascade has started are remembered in the mutate context and
     the loop steps over them, so every nested call is about an entity that is not yet in progress:
@@ -212,11 +278,14 @@ def deleteA (σ : Schema) : Nat → List Bytes → St → Bytes → Res
   | 0, _, _, _ => .error .diverge
   | n + 1, prog, s, id =>
     if s.as.contains id then                                                    -- FindById
-      match (orderA σ).foldlM (beforeDeleteA (deleteA σ n) prog id) s with      -- processDeleteConstraints
-      | .ok s1 =>
-        if s1.as.contains id then                                               -- bucket.DeleteEntity(id)
-          .ok { s1 with as := s1.as.erase id, minions := s1.minions.erase id }
-        else .error .other
+      match (if hasExt s id then passA σ (deleteA σ n) prog id s else .ok s) with   -- child store's round
+      | .ok s0 =>
+        match passA σ (deleteA σ n) prog id s0 with                             -- A's own processDeleteConstraints
+        | .ok s1 =>
+          if s1.as.contains id then                                             -- bucket.DeleteEntity(id)
+            .ok { s1 with as := s1.as.erase id, minions := s1.minions.erase id }
+          else .error .other
+        | .error e => .error e
       | .error e => .error e
     else .error .notFound
 
@@ -250,6 +319,10 @@ inductive Op
   | updateA (id : Bytes) (e : EntA) (mOwner mBoss mDep : Bool)
   | deleteA (id : Bytes)
   | deleteB (id : Bytes)
+  /-- through the child store -/
+  | createC (id : Bytes) (e : EntA) (tag : FV)
+  | updateC (id : Bytes) (e : EntA) (tag : FV) (mOwner mBoss mDep mTag : Bool)
+  | deleteC (id : Bytes)
 deriving Repr
 
 def apply (σ : Schema) (s : St) : Op → Res
@@ -258,6 +331,9 @@ def apply (σ : Schema) (s : St) : Op → Res
   | .updateA id e mo mb md => updateA σ s id e mo mb md
   | .deleteA id => deleteA σ (fuelOf s) [] s id
   | .deleteB id => deleteB σ s id
+  | .createC id e tag => createC σ s id e tag
+  | .updateC id e tag mo mb md mt => updateC σ s id e tag mo mb md mt
+  | .deleteC id => deleteA σ (fuelOf s) [] s id                 -- `store.parent.DeleteById`
 
 /-- one operation in its own transaction: an error rolls back -/
 def step (σ : Schema) (s : St) (op : Op) : St × Option Err :=
